@@ -131,6 +131,8 @@ class UMNDirHandler(DirHandler):
                 if linkentry.gettype() == "X" or linkentry.gettype() == "-":
                     # It's special code to hide something.
                     self.fileentries.remove(fileentriesdict[linkentry.selector])
+                    # It is gone: a second block naming it must not try again.
+                    del fileentriesdict[linkentry.selector]
                 else:
                     self.mergeentries(fileentriesdict[linkentry.selector], linkentry)
             else:
